@@ -99,9 +99,9 @@ func init() {
 			var x result
 			select {
 			case x = <-ch:
-			case <-time.After(5 * time.Second):
+			case <-time.After(20 * time.Second):
 				// the walk does not return (the goroutine is left behind; the run ends soon after)
-				return map[string]interface{}{"hang": "PathMatcher did not return within 5s"}, "hang"
+				return map[string]interface{}{"hang": "PathMatcher did not return within 20s"}, "hang"
 			}
 			if x.err != nil {
 				e := x.err.Error()
